@@ -22,9 +22,12 @@ open KaVerif.Parser
     both parse to exactly that tree: so both texts parse to the *same* tree, and the grouping of
     the minimal text is the one the precedence/associativity table prescribes (the table is
     `Ast.level` + `rNat` in Model/Render.lean).
-    Covered (stage 1): numbers, variables, parentheses, postfix `!`, unary sign, `^`, `* / %`,
+    Covered (stages 1 and 2): numbers, variables, parentheses, postfix `!`, unary sign, `^`, `* / %`,
     `+ - ±` (all left-associative), one or two comparison operators including
-    `make_comparison_node`'s flipping, statements separated by `;`, assignment. -/
+    `make_comparison_node`'s flipping, quantities with unit signatures (`m^-2 s | kg`, exponents by
+    `parse_integer`), `..`, `to`, function calls with positional and keyword arguments, statements
+    separated by `;`, assignment.  Not yet covered: strings, instants, arrays, comprehensions,
+    interval literals. -/
 theorem C02_roundtrip_partial (t : Ast) (h : t.WF) (hf : t.InFragment) :
     parse (renderMin t) = .ok t ∧ parse (renderFull t) = .ok t := by
   cases t with
@@ -48,14 +51,27 @@ private def n (k : Int) : Ast := .num (.int k)
 private def sample : Ast := .stmts [
   .assign "x" (.bin .add (n 1) (.bin .mul (n 2) (.sign true (.fact (.bin .sub (n 3) (n 4)))))),
   .cmp2 .leq .lt (.var "c") (.bin .pow (.bin .pow (n 2) (n 3)) (n 2)) (.var "a"),
-  .cmp1 .asg (.var "x") (n 1)]
+  .cmp1 .asg (.var "x") (n 1),
+  -- -a! m^2|s .. b ^ c * f(1, k: 2) ± 3 <= d < e to km|h   (`..` binds tighter than `^`)
+  .convert (.cmp2 .leq .lt
+      (.bin .pm (.bin .mul (.bin .pow (.range (.quantity (.sign true (.fact (.var "a"))) ⟨[("m", 2)], [("s", 1)]⟩) (.var "b")) (.var "c"))
+                 (.call "f" [n 1] [("k", n 2)])) (n 3))
+      (.var "d") (.var "e")) ⟨[("km", 1)], [("h", 1)]⟩,
+  -- (3 m)^2 : the parentheses are required because `m^2` would be read as a unit with exponent
+  .bin .pow (.quantity (n 3) ⟨[("m", 1)], []⟩) (n 2)]
 
 example : sample.WF ∧ sample.InFragment := by decide
 example : (renderMin sample).map (·.tag.render) =
     ["identifier", "=", "number", "+", "number", "*", "-", "(", "number", "-", "number", ")", "!", ";",
      "identifier", "<=", "number", "^", "number", "^", "number", "<", "identifier", ";",
-     "(", "identifier", "=", "number", ")"] := by decide
+     "(", "identifier", "=", "number", ")", ";",
+     "-", "identifier", "!", "identifier", "^", "number", "|", "identifier", "..", "identifier", "^", "identifier",
+     "*", "identifier", "(", "number", ",", "identifier", ":", "number", ")", "±", "number", "<=", "identifier", "<",
+     "identifier", "to", "identifier", "|", "identifier", ";",
+     "(", "number", "identifier", ")", "^", "number"] := by decide
+set_option maxRecDepth 4000 in
 example : parse (renderMin sample) = .ok sample := by rfl
+set_option maxRecDepth 8000 in
 example : parse (renderFull sample) = .ok sample := by rfl
 
 end KaVerif
